@@ -453,7 +453,7 @@ func procComponent(r *hx.Run) {
 	g := &frameGen{r.Rng}
 	n := 1500
 	if r.Tier == "thorough" {
-		n = 25000
+		n = 250000
 	}
 	cfgs := []string{
 		"tcp:tcpsyn:synack:empty:0", "tcp:tcpsyn:synack:empty:1", "tcp:tcpfin:all:all:0", "tcp:tcpflags:all:all:1",
